@@ -211,7 +211,15 @@ def r3(ctx):
 
     sa, sb = shape(a), shape(b)
     ctx.ob("R3", "AGREE", a, "find_mz_offset ~ find_architecture", sa == sb, "both scanners use the same range, seeks, e_lfanew constraint, start handling and EOF handling" if sa == sb else f"siblings differ: {sa} vs {sb}")
-    ctx.ob("R3", "AGREE", a, "e_lfanew constraint", sa["lfanew"] == ["mz.e_lfanew > 0 and mz.e_lfanew < maxrange"] or (len(sa["lfanew"]) == 1 and "> 0" in sa["lfanew"][0] and "< maxrange" in sa["lfanew"][0]), f"constraint {sa['lfanew']}")
+    lf_ok = False
+    for s2 in statements(a.node):
+        if isinstance(s2, ast.If) and "e_lfanew" in src(s2.test):
+            from csverif.astutil import conjuncts as _cj
+            parts = [tr for cj in _cj(s2.test) for tr in compare_parts(cj)]
+            gt0 = any(isinstance(op, ast.Gt) and (dotted(l) or "").endswith(".e_lfanew") and _c(r) == 0 for l, op, r in parts)
+            ltm = any(isinstance(op, ast.Lt) and (dotted(l) or "").endswith(".e_lfanew") and dotted(r) == "maxrange" for l, op, r in parts)
+            lf_ok = gt0 and ltm
+    ctx.ob("R3", "AGREE", a, "e_lfanew constraint", lf_ok, f"constraint {sa['lfanew']} (required 0 < e_lfanew < maxrange)")
     # machine mapping in find_architecture
     m = {}
     for st in statements(b.node):
@@ -334,7 +342,11 @@ def r5(ctx):
     mv = next((dotted(s2.targets[0]) for s2 in statements(init.node) if isinstance(s2, ast.Assign) and isinstance(s2.value, ast.Call) and dotted(s2.value.func) in ("re.match", "re.fullmatch")), "m")
     t3 = any(find_match("(int($m.group('major')), int($m.group('minor')), int($m.group('patch')))", s2, {"m": mv}) for s2 in statements(init.node) if isinstance(s2, ast.Assign))
     t2 = any(find_match("(int($m.group('major')), int($m.group('minor')))", s2, {"m": mv}) for s2 in statements(init.node) if isinstance(s2, ast.Assign))
-    pg = any(isinstance(s2, ast.If) and pmatch("$m.group('patch')", s2.test, {"m": mv}) is not None for s2 in statements(init.node))
+    def _unnot(t):
+        while isinstance(t, ast.UnaryOp) and isinstance(t.op, ast.Not):
+            t = t.operand
+        return t
+    pg = any(isinstance(s2, ast.If) and pmatch("$m.group('patch')", _unnot(s2.test), {"m": mv}) is not None for s2 in statements(init.node))
     dt = any(find_match("datetime.datetime.strptime($m.group('date'), '%b %d, %Y')", s2, {"m": mv}) for s2 in statements(init.node) if isinstance(s2, ast.Assign))
     ctx.ob("R5", "AGREE", init, "tuple/date from the named groups", t3 and t2 and pg and dt, f"3-tuple with patch={t3}; 2-tuple without={t2}; arity decided by the patch group={pg}; date parsed from the date group with '%b %d, %Y'={dt}")
 
@@ -347,7 +359,7 @@ def r6(ctx):
     finals = [r for r in statements(f.node) if isinstance(r, ast.Return) and isinstance(r.value, ast.Tuple) and len(r.value.elts) == 2 and all(isinstance(e, ast.Name) for e in r.value.elts)]
     PRE, APP = (finals[-1].value.elts[0].id, finals[-1].value.elts[1].id) if finals else ("prepend", "append")
     pre = [s for s in sites if s.kind == "read" and s.what == mz]
-    ok = len(pre) == 1 and pre[0].pos == SymPoly.const(0) and pre[0].var == PRE and guarded_by(ctx, f, pre[0].node, lambda t: True if src(t) == f"{mz} > 0" else None)
+    ok = len(pre) == 1 and pre[0].pos == SymPoly.const(0) and pre[0].var == PRE and guarded_by(ctx, f, pre[0].node, lambda t: True if any(isinstance(op, ast.Gt) and dotted(l) == mz and _c(r) == 0 for l, op, r in compare_parts(t)) else None)
     ctx.ob("R6", "CURSOR", f, "prepend = bytes [0, mz_offset)", bool(ok), "prepend is read from offset 0 for mz_offset bytes when the image does not start the file" if ok else "prepend read is not fh.seek(0); fh.read(mz_offset) under mz_offset > 0")
     ap = [s for s in sites if s.kind == "read" and s.var == APP]
     SZ = None
